@@ -213,6 +213,7 @@ structure Ladder where
   entry : Str                    -- what compileExpression calls
   levels : List Level            -- lowest precedence first
   bottom : Str                   -- callee of the last level
+  declVarGuard : Bool := false   -- skipDecl returns at once when the name behind `(` is a variable (varId != 0)
   deriving DecidableEq, Repr
 
 /-- the callee chain really is a ladder -/
